@@ -4,6 +4,7 @@ import (
 	"encoding/json"
 	"fmt"
 	"math/big"
+	"strings"
 	"time"
 
 	sdkmath "cosmossdk.io/math"
@@ -17,6 +18,7 @@ import (
 	stakingtypes "github.com/cosmos/cosmos-sdk/x/staking/types"
 	"github.com/ethereum/go-ethereum/common"
 	ethtypes "github.com/ethereum/go-ethereum/core/types"
+	"github.com/ethereum/go-ethereum/core/vm"
 	"github.com/ethereum/go-ethereum/crypto"
 
 	chainapp "github.com/EscanBE/evermint/v12/app"
@@ -66,6 +68,7 @@ type world struct {
 	puppets     []*puppet
 	vals        []sdk.ValAddress
 	staking     common.Address
+	staker      common.Address // contract that reads, withdraws and reads again in one transaction (stakerCode)
 	minWithdraw *big.Int
 	used        map[common.Address]uint64 // next nonce/sequence per sender within the block being planned
 	stakeSrv    stakingtypes.MsgServer
@@ -285,6 +288,7 @@ func (w *world) setup() {
 	if ob.TxResults()[0].Code != 0 {
 		panic("fund puppets: " + ob.TxResults()[0].Log)
 	}
+	w.deployStaker()
 	// the documented minimum reward that withdrawRewards() bothers to claim: 1/1000 coin
 	ok, ret, errText := w.ethCall(w.relayer.Addr, w.staking, mustPack("decimals"))
 	if !ok {
@@ -337,4 +341,117 @@ func jsonClone(v any) map[string]any {
 	m := map[string]any{}
 	_ = json.Unmarshal(b, &m)
 	return m
+}
+
+// ---- a contract that reads, writes and reads again inside one transaction ----
+
+// stakerCode: with call data, forward it to the staking precompile (CALL, all gas) and return its answer; without call
+// data run the sequence  rewardsOf(self) ; withdrawRewards() ; rewardsOf(self)  and return the three words
+// (first answer, success flag of the withdrawal, second answer).
+func stakerCode(staking common.Address) []byte {
+	selRewardsOf := cpcabi.StakingCpcInfo.ABI.Methods["rewardsOf"].ID
+	selWithdraw := cpcabi.StakingCpcInfo.ABI.Methods["withdrawRewards"].ID
+	a := vh.NewAsm()
+	a.Op(vm.CALLDATASIZE).JumpI("fwd")
+	a.MStoreBytes(0, selRewardsOf)
+	a.Op(vm.ADDRESS).PushU(4).Op(vm.MSTORE)
+	a.CallMem(vh.STATICCALL, staking, nil, 0, 0, 36, 0x100, 32).Op(vm.POP)
+	a.MStoreBytes(0x40, selWithdraw)
+	a.CallMem(vh.CALL, staking, nil, 0, 0x40, 4, 0x180, 32)
+	a.PushU(0x120).Op(vm.MSTORE)
+	a.CallMem(vh.STATICCALL, staking, nil, 0, 0, 36, 0x140, 32).Op(vm.POP)
+	a.PushU(0x60).PushU(0x100).Op(vm.RETURN)
+	a.Label("fwd")
+	a.Op(vm.CALLDATASIZE).PushU(0).PushU(0).Op(vm.CALLDATACOPY)
+	a.PushU(0).PushU(0).Op(vm.CALLDATASIZE).PushU(0).PushU(0).PushAddr(staking).Op(vm.GAS, vm.CALL)
+	a.Op(vm.RETURNDATASIZE).PushU(0).PushU(0).Op(vm.RETURNDATACOPY)
+	a.JumpI("ok")
+	a.Op(vm.RETURNDATASIZE).PushU(0).Op(vm.REVERT)
+	a.Label("ok")
+	a.Op(vm.RETURNDATASIZE).PushU(0).Op(vm.RETURN)
+	return a.Bytes()
+}
+
+func (w *world) deployStaker() {
+	price := new(big.Int).Mul(w.c.BaseFee(), big.NewInt(2))
+	w.staker = crypto.CreateAddress(w.deployer.Addr, w.c.Nonce(w.deployer.Addr))
+	bz, tx := w.c.EthTx(w.deployer, vh.LegacyTx(w.nonce(w.deployer), nil, vh.Ether(60), 1_000_000, price, vh.Deployer(stakerCode(w.staking))))
+	ob := w.block([]*plan{{Class: "fund", Sender: w.deployer, Bz: bz, Tx: tx}}, false)
+	w.used = map[common.Address]uint64{}
+	if res := ob.TxResults()[0]; res.Code != 0 {
+		panic("deploy staker: " + res.Log)
+	}
+	// it delegates to every validator (so that rewards accrue to it from now on)
+	var txs []*plan
+	for _, v := range w.c.Vals {
+		to := w.staker
+		data := mustPack("delegate", common.BytesToAddress(v.Oper), vh.Ether(10))
+		bz, tx := w.c.EthTx(w.deployer, vh.LegacyTx(w.nonce(w.deployer), &to, nil, 1_500_000, price, data))
+		txs = append(txs, &plan{Class: "fund", Sender: w.deployer, Bz: bz, Tx: tx})
+	}
+	ob = w.block(txs, false)
+	w.used = map[common.Address]uint64{}
+	for _, res := range ob.TxResults() {
+		if rc, _ := vh.ReceiptOf(res); res.Code != 0 || rc == nil || rc.Status != 1 {
+			panic("staker delegation failed: " + res.Log)
+		}
+	}
+}
+
+// planViewSequence: somebody calls the staker contract without call data.
+func (w *world) planViewSequence() *plan {
+	sender := w.freeEOA(true)
+	if sender == nil {
+		return nil
+	}
+	to := w.staker
+	return w.ethPlanFn(sender, &to, nil, 3_000_000, func(*big.Int) ([]byte, *plan) {
+		return nil, &plan{Class: "viewseq", Method: "rewardsOf;withdrawRewards;rewardsOf", CallerKind: "contract-in-one-tx"}
+	})
+}
+
+// totalBondRewards: what the native total-rewards query answers for the delegator on a pending-rewards view
+// (per-delegation DecCoins summed, bond denomination, integer part).
+func totalBondRewards(view map[string]string, delegator common.Address) *big.Int {
+	total := sdk.DecCoins{}
+	pre := sdk.AccAddress(delegator.Bytes()).String() + "|"
+	for k, v := range view {
+		if !strings.HasPrefix(k, pre) {
+			continue
+		}
+		dc, err := sdk.ParseDecCoins(v)
+		if err != nil {
+			continue
+		}
+		total = total.Add(dc...)
+	}
+	return total.AmountOf(vh.Denom).TruncateInt().BigInt()
+}
+
+func (w *world) checkViewSequence(ob *vh.ObservedBlock, i int, p *plan) {
+	run := w.run
+	res := ob.Res.TxResults[i]
+	preV, ok1 := ob.Pre[i].View.(map[string]string)
+	postV, ok2 := ob.Post[i].View.(map[string]string)
+	resp := vh.EthResponse(res)
+	if !ob.Reached[i] || !ok1 || !ok2 || resp == nil || resp.VmError != "" || len(resp.Ret) != 96 {
+		run.Count("view_sequences_not_executed", 1)
+		return
+	}
+	run.Eval(1)
+	first, flag, second := new(big.Int).SetBytes(resp.Ret[:32]), new(big.Int).SetBytes(resp.Ret[32:64]), new(big.Int).SetBytes(resp.Ret[64:])
+	wantFirst, wantSecond := totalBondRewards(preV, w.staker), totalBondRewards(postV, w.staker)
+	run.Count("view_sequences_checked", 1)
+	if flag.Sign() > 0 && wantFirst.Cmp(wantSecond) != 0 {
+		run.Count("view_sequences_with_a_withdrawal_in_between", 1)
+	}
+	run.Nontrivial(fmt.Sprintf("viewseq|withdrawn=%v|rewards-before-zero=%v", flag.Sign() > 0, wantFirst.Sign() == 0))
+	wit := map[string]any{"world": w.label, "height": ob.Height, "index": i, "contract": w.staker.Hex(), "rewardsOf_before": first.String(), "native_before": wantFirst.String(),
+		"withdrawRewards_succeeded": flag.Sign() > 0, "rewardsOf_after": second.String(), "native_after": wantSecond.String()}
+	if first.Cmp(wantFirst) != 0 {
+		run.Violation("view-in-tx-differs-from-native:rewardsOf:before-write", w.label, wit)
+	}
+	if second.Cmp(wantSecond) != 0 {
+		run.Violation("view-in-tx-differs-from-native:rewardsOf:after-write-in-same-tx", w.label, wit)
+	}
 }
